@@ -14,4 +14,5 @@ def run(ctx):
     state.r_fresh(ctx)
     n = state.r_accum(ctx)
     state.r_memo(ctx)
+    state.r_memo_new(ctx)
     ctx.floor("accumulating writes examined", n, 8)
